@@ -1,11 +1,41 @@
 #!/usr/bin/env python3
 """Run every seeded change (seeded/<name>/patch[_current].diff) against the quick check of the property
-it breaks (scratch copy of /repo, removed afterwards); record the verdict in meta.json and print a table."""
-import json, os, subprocess, sys
+it breaks (scratch copy of /repo, removed afterwards); record the verdict in meta.json and print a table.
+
+A change that is not caught is re-examined with its own demonstration program on the *current* tree: if the
+demo passes with the change applied, a later `fix:` commit has made the kernel robust against that change (it no
+longer breaks the property) - the verdict is NEUTRALISED, not MISSED."""
+import json, os, shutil, subprocess, sys, tempfile
 ROOT = os.path.dirname(os.path.dirname(os.path.abspath(__file__)))
 names = sorted(os.listdir(os.path.join(ROOT, 'seeded')))
 only = sys.argv[1:]
 rows = []
+
+
+def demo_still_fails(d):
+    """apply the change to a scratch copy of /repo's working tree and run its demo: True / False / None (no verdict)"""
+    patch = os.path.join(d, 'patch_current.diff')
+    if not os.path.exists(patch):
+        patch = os.path.join(d, 'patch.diff')
+    scr = tempfile.mkdtemp(prefix='usim_seed_demo.')
+    try:
+        files = subprocess.run(['git', '-C', '/repo', 'ls-files', '-z'], capture_output=True).stdout.split(b'\0')
+        for f in files:
+            if f:
+                dst = os.path.join(scr, f.decode())
+                os.makedirs(os.path.dirname(dst), exist_ok=True)
+                shutil.copy2(os.path.join('/repo', f.decode()), dst)
+        if subprocess.run(['patch', '-p1', '-s', '-i', patch], cwd=scr, capture_output=True).returncode != 0:
+            return None
+        r = subprocess.run(['/venv/bin/python', os.path.join(d, 'demo.py')], cwd=scr, capture_output=True, timeout=300,
+                           env=dict(os.environ, PYTHONPATH=scr))
+        return {0: False, 1: True}.get(r.returncode)
+    except Exception:       # noqa
+        return None
+    finally:
+        shutil.rmtree(scr, ignore_errors=True)
+
+
 for n in names:
     if only and n not in only:
         continue
@@ -16,9 +46,16 @@ for n in names:
     out = r.stdout
     caught = 'exit=1' in out and 'VIOLATION' in out
     sigs = sorted({l.split('sig=')[1].split()[0] for l in out.splitlines() if 'sig=' in l})[:6]
+    verdict = 'CAUGHT' if caught else 'MISSED'
     meta['detected_by'] = {'check': prop, 'tier': 'quick', 'caught': caught, 'signatures': sigs,
                            'command': 'tools/run_seeded.sh %s %s' % (n, prop)}
+    if not caught and 'patch failed' not in out and demo_still_fails(d) is False:
+        verdict = 'NEUTRALISED'
+        head = subprocess.run(['git', '-C', '/repo', 'log', '--format=%h', '-1'], capture_output=True, text=True).stdout.strip()
+        meta['detected_by']['neutralised'] = ('with this change applied to the current tree (%s) its own demonstration passes: a later '
+                                              'fix: commit made usim robust against it, it no longer breaks the property' % head)
     json.dump(meta, open(os.path.join(d, 'meta.json'), 'w'), indent=1)
-    rows.append((n, prop, caught, sigs))
-    print('%-8s %s %-5s %s' % (n, prop, 'CAUGHT' if caught else 'MISSED', ', '.join(sigs)), flush=True)
-print('caught %d of %d' % (sum(1 for r in rows if r[2]), len(rows)))
+    rows.append((n, prop, verdict, sigs))
+    print('%-8s %s %-11s %s' % (n, prop, verdict, ', '.join(sigs)), flush=True)
+print('caught %d of %d still valid (%d neutralised by later fixes)' % (
+    sum(1 for r in rows if r[2] == 'CAUGHT'), sum(1 for r in rows if r[2] != 'NEUTRALISED'), sum(1 for r in rows if r[2] == 'NEUTRALISED')))
